@@ -18,8 +18,7 @@ SIBLINGS = {"C01-r2-1": ["C19"], "C05-r2-1": ["C19"], "C06-r2-1": ["C19"], "C08-
             "C03-r5-1": ["C07"], "C03-r5-2": ["C04"], "C09-r5-2": ["C10"], "C19-r5-2": ["C12"], "C20-r5-1": ["C05"],
             "C04-r6-1": ["C10"], "C05-r6-1": ["C02"], "C06-r6-1": ["C19"], "C08-r6-1": ["C10"], "C11-r6-1": ["C10"], "C12-r6-1": ["C19", "C04"]}
 # seeded changes whose demonstration lies outside the library's documented domain (not demanded of any check)
-OUT_OF_DOMAIN = {"C17-r6-1": "NOT REACHED: needs an extent of 2^31 or more; the archives of C17 hold arrays with extents up to 3 (and TLC's integers are 32-bit)",
-                 "C15-r5-1": "the change only manifests when input and output are views of the SAME memory with different strides (in-place transposition through "
+OUT_OF_DOMAIN = {"C15-r5-1": "the change only manifests when input and output are views of the SAME memory with different strides (in-place transposition through "
                              "the four-argument dft); neither the adaptor's README nor the library's documents such aliasing (the library's README calls overlapping "
                              "sources and destinations undefined), so no check demands it",
                  "C15-r5-2": "NOT REACHED, not out of domain: the change needs a stride of 2^31 elements or more (a view of an array of >= 32 GiB); the replayer logs "
